@@ -33,6 +33,14 @@ type C24Case struct {
 	Bytes   []byte   `json:"bytes,omitempty"` // expected array payload / string bytes
 	Alt     [][]byte `json:"alt,omitempty"`   // per float element: second acceptable encoding (neighbour), nil if exact
 	Traits  []string `json:"traits,omitempty"`
+	// string-like forms beyond string / resource ID: "media-text" (@type/subtype"..."), "remote-ref" ($"..."),
+	// "custom-text" (@<code>"...")
+	Form  string `json:"form,omitempty"`
+	Media string `json:"media,omitempty"` // media type of the media-text form
+	Code  uint64 `json:"code,omitempty"`  // custom type code of the custom-text form
+	// Prefix: the literal is the second element of a list whose first element is this text (a value must
+	// decode to the same thing whatever was decoded before it)
+	Prefix string `json:"prefix,omitempty"`
 }
 
 func (c *C24Case) trait(s string) { c.Traits = append(c.Traits, s) }
@@ -481,11 +489,24 @@ func genC24String(t *rapid.T, c *C24Case) {
 		}
 		want = utf8.AppendRune(want, ch.r)
 	}
-	form := rapid.IntRange(0, 5).Draw(t, "sform")
+	form := rapid.IntRange(0, 8).Draw(t, "sform")
 	switch form {
 	case 0:
 		c.Text = `@"` + sb.String() + `"`
 		c.AT = uint8(events.ArrayTypeResourceID)
+	case 6:
+		c.Form, c.Media = "media-text", rapid.SampledFrom([]string{"text/plain", "application/x-sh", "a/b"}).Draw(t, "mtype")
+		c.Text = "@" + c.Media + `"` + sb.String() + `"`
+		c.trait("media-text")
+	case 7:
+		c.Form = "remote-ref"
+		c.Text = `$"` + sb.String() + `"`
+		c.AT = uint8(events.ArrayTypeReferenceRemote)
+		c.trait("remote-ref")
+	case 8:
+		c.Form, c.Code = "custom-text", uint64(rapid.SampledFrom([]int{0, 1, 99, 65536}).Draw(t, "ccode"))
+		c.Text = fmt.Sprintf(`@%d"%s"`, c.Code, sb.String())
+		c.trait("custom-text")
 	default:
 		c.Text = `"` + sb.String() + `"`
 		c.AT = uint8(events.ArrayTypeString)
@@ -533,6 +554,10 @@ func init() {
 			default:
 				genC24String(t, c)
 			}
+			if rapid.IntRange(0, 3).Draw(t, "prefixed") == 0 {
+				c.Prefix = rapid.SampledFrom([]string{`"abc"`, `@u8x[01 02 03]`, `@"http://x.y"`, `"a string longer than fifteen bytes"`, `17`, `@i16[1 -2]`, `@a/b[01 02]`}).Draw(t, "prefix")
+				c.trait("after-another-value")
+			}
 			return c
 		},
 		Check: func(ci interface{}, ctx *Ctx) error {
@@ -544,6 +569,9 @@ func init() {
 			ctx.LabelIf(c.Reject, "must-reject")
 			ctx.NonTrivial(len(c.Traits) > 0 || c.Reject)
 			doc := []byte("c0\n" + c.Text)
+			if c.Prefix != "" {
+				doc = []byte("c0\n[" + c.Prefix + " " + c.Text + "]")
+			}
 			var evs []ev.Event
 			var err error
 			o := ctx.Guard(func() { evs, err = decodeCTE(doc, newCfg()) })
@@ -567,6 +595,14 @@ func init() {
 				return fmt.Errorf("literal %q decoded to a malformed document: %v %s", c.Text, berr, ev.ListString(evs))
 			}
 			got := tree.Children[0]
+			if c.Prefix != "" {
+				if got.Kind != canon.KList || len(got.Children) != 2 {
+					return fmt.Errorf("list of two values %q decoded to %s", doc, got.Brief())
+				}
+				got = got.Children[1]
+				// the event-level checks below look at the literal's own event: the last value event of the list
+				evs = append(evs[:2:2], evs[len(evs)-3], evs[len(evs)-1])
+			}
 			bad := func(what string) error {
 				return fmt.Errorf("literal %q spells %s but decoded to %s", c.Text, what, got.Brief())
 			}
@@ -630,6 +666,18 @@ func init() {
 					return bad(fmt.Sprintf("element %d = %x (all: %x)", i/w, c.Bytes[i:i+w], c.Bytes))
 				}
 			case "string":
+				switch c.Form {
+				case "media-text":
+					if got.Kind != canon.KMedia || got.Str != c.Media || !bytes.Equal(got.Bytes, c.Bytes) {
+						return bad(fmt.Sprintf("media %s %q", c.Media, c.Bytes))
+					}
+					return nil
+				case "custom-text":
+					if got.Kind != canon.KCustom || got.Code != c.Code || !bytes.Equal(got.Bytes, c.Bytes) {
+						return bad(fmt.Sprintf("custom text %d %q", c.Code, c.Bytes))
+					}
+					return nil
+				}
 				if got.Kind != canon.KArray || uint8(got.AT) != c.AT || !bytes.Equal(got.Bytes, c.Bytes) {
 					return bad(fmt.Sprintf("%v %q", events.ArrayType(c.AT), c.Bytes))
 				}
